@@ -30,11 +30,11 @@ WellFormed(steps) ==
 Targets == {"object", "array", "string", "number", "bool", "date", "amount",
             "key:$schema", "key:$regime", "key:$addons", "key:currency", "key:country", "key:code", "key:sigs", "key:dig", "key:uuid"}
 Mutations == {"delete", "null", "retype-string", "retype-number", "retype-object", "retype-array", "retype-bool", "empty",
-              "huge", "tiny", "negative", "unknown-code", "duplicate", "nulls-inside", "deep-nest", "empty-signature", "zero"}
+              "huge", "tiny", "tiny64", "negative", "unknown-code", "duplicate", "nulls-inside", "deep-nest", "empty-signature", "zero"}
 Applies(t, m) ==
     CASE m \in {"delete", "null", "retype-string", "retype-number", "retype-object", "retype-array", "retype-bool"} -> TRUE
       [] m = "empty" -> t \in {"object", "array", "string"}
-      [] m \in {"huge", "tiny", "negative", "zero"} -> t \in {"amount", "number", "date"}
+      [] m \in {"huge", "tiny", "tiny64", "negative", "zero"} -> t \in {"amount", "number", "date"}
       [] m = "unknown-code" -> t \in {"key:$regime", "key:$addons", "key:currency", "key:country", "key:$schema", "key:code"}
       [] m \in {"duplicate", "nulls-inside"} -> t = "array"
       [] m = "deep-nest" -> t \in {"object", "array", "string"}
